@@ -237,7 +237,7 @@ func (u *Unit) execInstr(fr *Frame, st *State, in ssa.Instruction) {
 	case *ssa.MapUpdate:
 		// maps held in fields are modelled; local label maps are not
 		if mv, ok := u.get(fr, x.Map).(*MapV); ok {
-			u.oblige("nopanic.nil_map_write", []string{"C13"}, "", st.pc, Not(u.mapNil(st, mv)), where, "assignment to entry in nil map")
+			u.oblige("nopanic.nil_map_write", u.panicProps(), "", st.pc, Not(u.mapNil(st, mv)), where, "assignment to entry in nil map")
 			u.mapStore(st, mv, u.termOf(u.get(fr, x.Key)), u.termOf(u.get(fr, x.Value)), TTrue)
 		}
 
@@ -365,8 +365,8 @@ func isStringType(t types.Type) bool {
 	return ok && b.Info()&types.IsString != 0
 }
 
-// panicProps: run-time panics count for C13 (no crash on any record content) and for the properties the
-// function is tagged with.
+// panicProps: run-time panics count for C13 (no crash on any record content) and, in functions that serve them,
+// for C09 (stop never panics) and C11 (no sequence of notifications crashes the election).
 func (u *Unit) panicProps() []string {
 	props := []string{"C13"}
 	fc := u.eng.cs.Funcs[u.curKey()]
@@ -377,8 +377,9 @@ func (u *Unit) panicProps() []string {
 		if fc.Flags["untagged_panics"] {
 			return nil
 		}
+		// the properties that speak about crashes: C13 always, C09 and C11 where the function serves them
 		for _, t := range fc.Tags {
-			if t != "C13" {
+			if t == "C09" || t == "C11" {
 				props = append(props, t)
 			}
 		}
@@ -613,11 +614,16 @@ func (u *Unit) counterStep(a, b Val) bool {
 	}
 	key := strings.TrimPrefix(sa.Origin, "field:")
 	fd := u.eng.cs.Fields[key]
-	if fd == nil || !fd.Counter {
-		return false
+	if fd != nil && fd.Counter {
+		u.assumedUsed["arithmetic counter-step "+key]++
+		return true
 	}
-	u.assumedUsed["arithmetic counter-step "+key]++
-	return true
+	// a 64-bit integer field stepped by one (a call or event counter): 2^63 steps away from wrapping
+	if b, ok := sa.Typ.Underlying().(*types.Basic); ok && (b.Kind() == types.Int || b.Kind() == types.Int64) {
+		u.assumedUsed["arithmetic counter-step "+key]++
+		return true
+	}
+	return false
 }
 
 // overflow emits an arithmetic-overflow obligation for every signed or narrow integer operation;
@@ -759,10 +765,7 @@ func (u *Unit) typeAssert(fr *Frame, st *State, x *ssa.TypeAssert, where string)
 		fr.vals[x] = &TupleV{Vs: []Val{val, &Scalar{T: ok, Typ: types.Typ[types.Bool]}}}
 		return
 	}
-	taProps := []string{"C13"}
-	if fc := u.eng.cs.Funcs[u.curKey()]; fc != nil && fc.Flags["untagged_panics"] {
-		taProps = nil
-	}
+	taProps := u.panicProps()
 	u.oblige("nopanic.type_assert", taProps, "", st.pc, ok, where, "single-result type assertion to "+typeString(x.AssertedType))
 	u.assume(st.pc, ok)
 	fr.vals[x] = val
